@@ -82,3 +82,17 @@ def delta_pairs(tier):
             yield {"base_buf": lit, "target_buf": lit}
             yield {"base_buf": lit + b"Q" + lit, "target_buf": lit + lit}
     return gen(), f"all (base,target) in {{a,b}}^<=3 x {{a,b}}^<=3 plus structured pairs with literal runs of sizes {sizes}"
+
+
+@domain("path_strings")
+def path_strings(tier):
+    alpha = b"./gGit a"
+    n = 5 if tier == "quick" else 6
+    return ({"path": x} for x in strings(alpha, n)), f"all strings <= {n} over {alpha!r} (the default element validator is the argument default)"
+
+
+@domain("element_strings")
+def element_strings(tier):
+    alpha = b".gGiItT~1: a"
+    n = 5 if tier == "quick" else 6
+    return ({"name": x} for x in strings(alpha, n)), f"all strings <= {n} over {alpha!r}"
